@@ -134,6 +134,10 @@ def check(pm: ProgramModel, ctx: Ctx) -> None:
         a._f["attributes"].append(mb.attribute("cost per unit" if vk == "str" else "attr", v, a))
         rt = roundtrip(mb.model(root, []))
         report("C05-FIELDS", f"attribute:{vk}", wwhere, rt, f"attribute with {vk} value {v!r}", owns=("attribute",))
+    from ..codec import lookalike_values_model
+    report("C05-FIELDS", "look-alike-values-across-features", wwhere, roundtrip(lookalike_values_model(mb)),
+           "one attribute name on several features with values that are equal but of different kinds (True / 1 / 1.0 / '1')",
+           owns=("attribute",))
     # CONSTRAINTS ---------------------------------------------------------------------------------------
     n, o = mb.node, mb.op
     for op in BINARY_LOGICAL:
